@@ -158,6 +158,9 @@ package parser2
 //@   ensures result1 == nil ==> result0 != nil && pos(tokenizer) > old(pos(tokenizer)) && glvl(tokenizer) >= plvl(self)
 //@   assigns tokenizer.token, tokenizer.tokenAvail, cpos(tokenizer), glvl(tokenizer), any []string, any *[]string, any []AST, any []listMap.listMapEntry[AST], any []Case[V]
 
+// the operator table of a parser is fixed once parsing starts
+//@ immutable Parser[V].operators
+
 //@ func (p *Parser[V]) nextParserCall
 //@   property C03
 //@   safety C04
